@@ -125,7 +125,15 @@ fn mutate(rng: &mut Rng, base: &str, stack: bool) -> (String, &'static str) {
     let mut lines = lines_of(base);
     let n = lines.len().max(1);
     let at = rng.usize_below(n);
-    match rng.below(13) {
+    match rng.below(14) {
+        13 => {
+            // Labels that differ only in letter case, and a reference spelled like neither
+            lines.push("case_lbl_q .fill x0001".to_string());
+            lines.push("CASE_LBL_Q .fill x0002".to_string());
+            lines.push("Case_lbl_Q .fill x0003".to_string());
+            lines.insert(0, format!("    ld r0, {}", rng.pick(&["Case_Lbl_q", "case_LBL_q", "CASE_lbl_q", "case_lbl_Q"])));
+            (lines.join("\n") + "\n", "case_variant_labels")
+        }
         12 => {
             // A big program: many labels in one assembly (tables grow, then must still be reset)
             let n = 100 + rng.usize_below(160);
@@ -201,7 +209,9 @@ fn mutate(rng: &mut Rng, base: &str, stack: bool) -> (String, &'static str) {
             lines.insert(at, ".orig x4000".to_string());
             (lines.join("\n") + "\n", "second_orig")
         }
-        9 if stack => {
+        9 => {
+            // With the feature off this is a lexer failure that names the feature
+            let _ = stack;
             lines.insert(at, "    push r1".to_string());
             lines.insert(at + 1, "    pop r2".to_string());
             (lines.join("\n") + "\n", "stack_mnemonics")
@@ -228,6 +238,7 @@ fn gen_history(rng: &mut Rng) -> (bool, Vec<(String, String)>) {
             allow_breaks: rng.chance(1, 3),
             max_blocks: 1 + rng.usize_below(4),
             high_origin: false,
+            tail_beyond_user: false,
         };
         gen::generate(rng, &opts).render()
     };
@@ -365,6 +376,29 @@ impl Check for C19 {
             }
             previous_failed = outcome == "ERR";
         }
+        // Every eighth history is also compared with a fresh *process* (state that is global to
+        // the process, not to the thread, would fool the fresh-thread comparison)
+        if v.is_empty() && !omit_reset && fnv(scenario.to_string().as_bytes()) % 8 == 0 {
+            if let Some(expected) = fresh_process(stack, &texts[..seen.len()]) {
+                report.hit("probe:compared_with_fresh_process");
+                for (i, rendered) in seen.iter().enumerate() {
+                    if expected.get(i) != Some(rendered) {
+                        v.push(Violation::new(
+                            ID,
+                            "C19/differs-from-fresh-process",
+                            format!(
+                                "re-check #{} ({}) differs from the same text assembled in a fresh process: watcher {:?}, fresh process {:?}",
+                                i,
+                                events[i].1,
+                                rendered.lines().next().unwrap_or(""),
+                                expected.get(i).map(|s| s.lines().next().unwrap_or("").to_string())
+                            ),
+                        ));
+                        break;
+                    }
+                }
+            }
+        }
         report.nontrivial = seen.len() >= 2;
         report.signature = fnv(&sig) ^ fnv(&hash);
         report.log_hash = fnv(&hash);
@@ -476,4 +510,48 @@ pub fn miri_tier(n: u64, seed: u64) -> i32 {
     } else {
         0
     }
+}
+
+/// Assemble each text in a new process (one fresh thread per text) and return the rendered
+/// results. `None` if the helper could not be run.
+fn fresh_process(stack: bool, texts: &[String]) -> Option<Vec<String>> {
+    use std::io::Write as _;
+    let exe = std::env::current_exe().ok()?;
+    let mut child = std::process::Command::new(exe)
+        .arg("c19-fresh")
+        .arg(if stack { "stack" } else { "plain" })
+        .env("NO_COLOR", "1")
+        .stdin(std::process::Stdio::piped())
+        .stdout(std::process::Stdio::piped())
+        .stderr(std::process::Stdio::null())
+        .spawn()
+        .ok()?;
+    let input = J::Arr(texts.iter().map(|t| J::from(t.as_str())).collect()).to_string();
+    child.stdin.take()?.write_all(input.as_bytes()).ok()?;
+    let out = child.wait_with_output().ok()?;
+    // The assembler itself may print to stdout (warnings): the answer is the last line
+    let text = std::str::from_utf8(&out.stdout).ok()?;
+    let parsed = J::parse(text.trim_end().lines().last()?).ok()?;
+    Some(parsed.arr()?.iter().filter_map(|s| s.str().map(|s| s.to_string())).collect())
+}
+
+/// Helper process of `fresh_process`: texts as a JSON array on stdin, rendered results as a JSON
+/// array on stdout (the assembler's own prints go to stderr / are filtered by position: the last
+/// line of stdout is the answer).
+pub fn fresh_helper(stack: bool) -> i32 {
+    use std::io::Read as _;
+    let mut input = String::new();
+    if std::io::stdin().read_to_string(&mut input).is_err() {
+        return 2;
+    }
+    let Ok(texts) = J::parse(&input) else {
+        return 2;
+    };
+    let mut out: Vec<J> = Vec::new();
+    for t in texts.arr().unwrap_or(&[]) {
+        let text = t.str().unwrap_or("").to_string();
+        out.push(J::from(fresh(stack, text)));
+    }
+    println!("\n{}", J::Arr(out).to_string());
+    0
 }
